@@ -13,6 +13,7 @@
 import ASV.Proofs.PackingBuild
 import ASV.Proofs.PackingGenes
 import ASV.Proofs.PackingRegion
+import ASV.Proofs.PackingJson
 namespace ASV.C19
 open ASV ASV.Packing ASV.Packing.Spec
 
@@ -113,6 +114,12 @@ theorem areas_order_preserved (c : Ctx) (r : RegionIn) (out : List Area) (hin : 
     split at this <;> simp_all
   · simp only [List.mem_cons, List.not_mem_nil, or_false] at hm
     rcases hm with rfl | rfl <;> omega
+
+/-- `to_minimal_json` loses nothing: reading the written object back (missing neighbouring
+    coordinate = the core's, missing string = empty, missing group = 0) gives the area again —
+    in particular a height of 0, a start of 0 and an end of 0 are always written -/
+theorem minimal_json_roundtrip (a : Area) : readArea a.toMinimalJson = some a :=
+  minimal_json_lossless a
 
 /-! ### get_unique_protoclusters: from the region's children to the drawing -/
 
